@@ -198,6 +198,8 @@ def run(ctx):
 
 def store_level(ctx, R):
     F = ctx.F
+    import storelib
+    storelib.rule_merge_owned(ctx, R)
     add = ctx.anchor(R, 'track::store::TrackStore::add')
     if add is not None:
         direct = add.find_calls('track::Track::add_observation')
